@@ -5,6 +5,7 @@ import (
 	"io"
 	"os"
 	"path/filepath"
+	"strconv"
 
 	"github.com/uber-go/tally"
 	"github.com/uber/kraken/core"
@@ -21,6 +22,16 @@ import (
 // process crash before every mutating file-system step. Afterwards fresh store
 // objects are built on the same directories and the recovery observations of
 // the property are checked.
+//
+// The piece DATA of the download is symbolic: every piece a peer delivers is
+// verif.Bytes (verifC04Deliver). crc32 is the engine's uninterpreted function
+// of the payload bytes, so whether the torrent accepts a delivery is decided by
+// the solver; as in harness/C03 a payload whose checksum equals the metainfo
+// piece sum is assumed to be the piece's bytes (checksum collision exclusion).
+// The metainfo is that of a concrete reference blob (real crc32 sums: the
+// sidecars stay byte-exact JSON and crash snapshots replay natively); whatever
+// is on disk after the crash (accepted payloads, garbage of rejected ones,
+// zero fill) is compared with the reference blob byte by byte by the solver.
 
 const verifC04Name = "bbbbbbbbbbbbbbbbbbbbbbbbbbbbbbbbbbbbbbbbbbbbbbbbbbbbbbbbbbbbbbbb"
 
@@ -54,16 +65,41 @@ func verifC04Piece(blob []byte, plen, pi int) []byte {
 	return blob[lo:hi]
 }
 
+// verifC04Same: byte-wise equality as one (symbolic) fact, no branching.
 func verifC04Same(a, b []byte) bool {
 	if len(a) != len(b) {
 		return false
 	}
+	same := true
 	for i := range a {
-		if a[i] != b[i] {
-			return false
-		}
+		same = verif.And(same, a[i] == b[i])
 	}
-	return true
+	return same
+}
+
+// verifC04Deliver is one piece delivery of the first life: a peer sends
+// arbitrary bytes of the piece's length for piece pi. The torrent checks them
+// against the metainfo piece sum (solver decision on the uninterpreted crc32):
+// accepted bytes are the piece's bytes; rejected ones are left as garbage in
+// the download file, the agent asks again and then receives the piece's bytes.
+func verifC04Deliver(t storage.Torrent, mi *core.MetaInfo, blob []byte, plen, pi int, tag string) {
+	want := verifC04Piece(blob, plen, pi)
+	payload := verif.Bytes(tag, len(want))
+	correct := verifC04Same(payload, want)
+	// crc32 is an uninterpreted function under the engine: the checksum of
+	// this payload does not collide with the piece's checksum unless the bytes
+	// are the piece's bytes
+	verif.Assume(verif.Implies(core.PieceSum(payload) == mi.GetPieceSum(pi), correct))
+	err := t.WritePiece(piecereader.NewBuffer(payload), pi)
+	if err != nil {
+		verif.Reach("corrupt-delivery-rejected")
+		verif.Assert("rejected-delivery-was-corrupt", !correct)
+		err = t.WritePiece(piecereader.NewBuffer(append([]byte(nil), want...)), pi)
+		verif.Assert("write-piece", err == nil)
+		return
+	}
+	verif.Reach("delivery-accepted")
+	verif.Assert("accepted-delivery-has-piece-content", correct)
 }
 
 // verifC04CacheBytes returns the bytes served from the cache, if any.
@@ -81,7 +117,7 @@ func verifC04CacheBytes(cads *store.CADownloadStore) ([]byte, bool) {
 // verifC04Download runs the agent's download of blob: create the torrent,
 // write the pieces in the given order (a prefix of them when stopAfter is
 // smaller than the number of pieces), which commits after the last one.
-func verifC04Download(mi *core.MetaInfo, blob []byte, plen int, descending bool, stopAfter int) {
+func verifC04Download(mi *core.MetaInfo, blob []byte, plen int, descending bool, stopAfter int, symbolic bool) {
 	_, archive, err := verifC04Stores(mi)
 	verif.Assert("stores", err == nil)
 	t, err := archive.CreateTorrent("ns", mi.Digest())
@@ -92,8 +128,12 @@ func verifC04Download(mi *core.MetaInfo, blob []byte, plen int, descending bool,
 		if descending {
 			pi = n - 1 - j
 		}
-		err := t.WritePiece(piecereader.NewBuffer(verifC04Piece(blob, plen, pi)), pi)
-		verif.Assert("write-piece", err == nil)
+		if symbolic {
+			verifC04Deliver(t, mi, blob, plen, pi, "payload"+strconv.Itoa(pi))
+		} else {
+			err := t.WritePiece(piecereader.NewBuffer(verifC04Piece(blob, plen, pi)), pi)
+			verif.Assert("write-piece", err == nil)
+		}
 	}
 	if stopAfter >= n {
 		verif.Assert("complete-after-all-pieces", t.Complete())
@@ -176,7 +216,14 @@ func verifC04EmptyFile(suffix string) bool {
 }
 
 func verifC04Run(blob []byte, plen int, which int) {
-	verif.Note("C04: blob bytes are concrete (distinct non-zero values) so that the metainfo sidecar is the byte-exact JSON and crash snapshots replay natively; crash points, piece order and the number of pieces written are the unknowns")
+	// the two sidecar regression checks are about content-independent crash
+	// windows: they keep concrete deliveries
+	symbolic := which == verifC04NoEmptySidecar
+	if symbolic {
+		verif.Note("C04: the reference blob (and with it the metainfo) is concrete so that the metainfo sidecar is the byte-exact JSON and crash snapshots replay natively; the bytes every peer delivers are symbolic (crc32 uninterpreted, checksum collision exclusion assumed as in C03); crash points, piece order and the number of pieces written are the other unknowns")
+	} else {
+		verif.Note("C04 sidecar regression checks: delivered bytes are the concrete reference bytes; crash points, piece order and the number of pieces written are the unknowns")
+	}
 	d, err := core.NewSHA256DigestFromHex(verifC04Name)
 	verif.Assert("digest", err == nil)
 	mi, err := core.NewMetaInfoFromBytes(d, blob, int64(plen))
@@ -184,7 +231,7 @@ func verifC04Run(blob []byte, plen int, which int) {
 	descending := verif.Choice("piece_order", 2) == 1
 	stopAfter := verif.Len("pieces_written", 0, mi.NumPieces())
 	crashed := verif.CrashScope(func() {
-		verifC04Download(mi, blob, plen, descending, stopAfter)
+		verifC04Download(mi, blob, plen, descending, stopAfter, symbolic)
 	})
 	emptyStatus := verifC04EmptyFile("_status")
 	emptyMetainfo := verifC04EmptyFile("_torrentmeta")
